@@ -140,8 +140,11 @@ def dispatch(ctx: Ctx) -> None:
                "an answer is given before the text is parsed under conditions other than the .ssc / .sm suffix", node=fi.node)
     _fallback(ctx, fi, function_decs(tsums(ctx, fi), out))
     # the peeked parameter is the FIRST one: next(parser) exactly once
-    nx = [c for c in calls(fi) if isinstance(c.func, ast.Name) and c.func.id == "next"]
-    ctx.expect("R-TABLE", fi, "the peek reads exactly the first parameter", len(nx) == 1, f"{len(nx)} next() call(s)", f"{len(nx)} next() calls", node=fi.node)
+    # counted along each path (the same tail may be written in two branches): every path that reads the text reads one parameter, no path more
+    per_path = [sum(1 for e in s_.effects for c in ([e.value] if e.value is not None else []) for x in ast.walk(c) if isinstance(x, ast.Call) and isinstance(x.func, ast.Name) and x.func.id == "next")
+                for s_ in tsums(ctx, fi)]
+    nx_ok = bool(per_path) and max(per_path) == 1
+    ctx.expect("R-TABLE", fi, "the peek reads exactly the first parameter", nx_ok, f"next() calls per path: at most {max(per_path) if per_path else 0}", f"next() calls per path: {sorted(set(per_path))}", node=fi.node)
     # empty stream -> SM
     ex = [s_ for s_ in tsums(ctx, fi) if exhausted(s_) and s_.end != "raise"]
     outs = set()
@@ -189,7 +192,16 @@ def _fallback(ctx: Ctx, fi: FunctionInfo, decs) -> None:
         okp = False
         if isinstance(v, ast.Tuple) and len(v.elts) == 2:
             t = v.elts[1]
-            conj = list(t.values) if (isinstance(t, ast.BoolOp) and isinstance(t.op, ast.And)) else [t]
+            def flat(e):
+                if isinstance(e, ast.BoolOp) and isinstance(e.op, ast.And):
+                    return [y for x in e.values for y in flat(x)]
+                return [e]
+            conj = flat(t)
+            # '<p> is not None' for the local that holds next(<parser>, None): "there is a first parameter" - part of reading it, not a further condition
+            next_none = {e.target.id for e in d.src.effects if e.kind == "bind" and isinstance(e.target, ast.Name) and isinstance(e.value, ast.Call) and isinstance(e.value.func, ast.Name)
+                         and e.value.func.id == "next" and len(e.value.args) == 2 and isinstance(e.value.args[1], ast.Constant) and e.value.args[1].value is None}
+            conj = [n for n in conj if not (isinstance(n, ast.Compare) and len(n.ops) == 1 and isinstance(n.ops[0], ast.IsNot) and isinstance(n.left, ast.Name) and n.left.id in next_none
+                                            and isinstance(n.comparators[0], ast.Constant) and n.comparators[0].value is None)]
             for n in conj:
                 hit = False
                 if isinstance(n, ast.Compare) and len(n.ops) == 1 and isinstance(n.ops[0], ast.Eq):
